@@ -45,6 +45,11 @@ type HistCfg struct {
 	// the topic's disk queue fails (short write + ENOSPC): the publish is refused (or, if no
 	// disk write was needed, acknowledged as usual) and leaves no trace in the counters
 	IOFault bool `json:"iofault,omitempty"`
+	// Topology: the topology-aware-consumption experiment is on (nsqd in region r1, zone z1)
+	// and the consumers IDENTIFY as "region" (same region, other zone), "zone" (same zone, other
+	// region), "both" or "mixed" (the first region-local, the second zone-local): deliveries
+	// then also travel over the channel's zone / region hand-off channels
+	Topology string `json:"topology,omitempty"`
 }
 
 func (c HistCfg) String() string {
@@ -58,14 +63,45 @@ func (c HistCfg) String() string {
 	if c.IOFault {
 		s += "/iofault"
 	}
+	if c.Topology != "" {
+		s += "/topology=" + c.Topology
+	}
 	return s
 }
 
 func (c HistCfg) mod() func(*Options) {
-	if !c.TightMax {
+	if !c.TightMax && c.Topology == "" {
 		return nil
 	}
-	return func(o *Options) { o.MaxMsgSize = 2 }
+	return func(o *Options) {
+		if c.TightMax {
+			o.MaxMsgSize = 2
+		}
+		if c.Topology != "" {
+			o.Experiments = []string{string(TopologyAwareConsumption)}
+			o.TopologyRegion, o.TopologyZone = "r1", "z1"
+		}
+	}
+}
+
+// topologyOf: the topology fields consumer n puts into its IDENTIFY.
+func (c HistCfg) topologyOf(n string) (region, zone string) {
+	kind := c.Topology
+	if kind == "mixed" {
+		kind = "region"
+		if n != "a" {
+			kind = "zone"
+		}
+	}
+	switch kind {
+	case "region":
+		return "r1", "z9"
+	case "zone":
+		return "r9", "z1"
+	case "both":
+		return "r1", "z1"
+	}
+	return "", ""
 }
 
 type HistRes struct {
@@ -552,8 +588,15 @@ func (h *hworld) subscribe(n, chn string, unbuffered bool) *lCons {
 	c.conn = h.w.Dial(fmt.Sprintf("%s%d", n, c.gen))
 	c.ch, c.rdy, c.rdyPrev, c.connected, c.closing, c.sent, c.fins, c.reqs, c.lastIDs, c.fatal = chn, 0, 0, true, false, 0, 0, 0, nil, false
 	c.rdyAfterCls = false
-	if unbuffered {
-		f := c.conn.Identify(map[string]interface{}{"client_id": n, "output_buffer_size": -1})
+	if unbuffered || h.cfg.Topology != "" {
+		id := map[string]interface{}{"client_id": n}
+		if unbuffered {
+			id["output_buffer_size"] = -1
+		}
+		if h.cfg.Topology != "" {
+			id["topology_region"], id["topology_zone"] = h.cfg.topologyOf(n)
+		}
+		f := c.conn.Identify(id)
 		if string(f.Data) != "OK" {
 			h.bad("C09 valid IDENTIFY refused", "%v", f)
 		}
